@@ -518,6 +518,102 @@ Proof.
   - cbn [flat_map]. apply Forall_app. auto.
 Qed.
 
+(* ---- as_dict --------------------------------------------------------------------------------
+   No well-formedness is needed: as_dict removes the marks where the abstraction removes them. *)
+Definition conv_child (x : val) : val :=
+  match x with
+  | VNs _ => ns_as_dict_v x
+  | VDict dd =>
+      if negb (is_nil dd) && all_ns (map snd dd)
+      then VDict (map (fun kv' => (fst kv', match snd kv' with VNs _ => ns_as_dict_v (snd kv') | y => y end)) dd)
+      else VDict dd
+  | VList l =>
+      if negb (is_nil l) && all_ns l
+      then VList (map (fun y => match y with VNs _ => ns_as_dict_v y | z => z end) l) else VList l
+  | y => y
+  end.
+
+Lemma as_dict_v_ns d :
+  ns_as_dict_v (VNs d) = VDict (map (fun kv => (unmark (fst kv), conv_child (snd kv))) d).
+Proof.
+  simpl. f_equal. apply map_ext. intros [k v]. simpl. destruct v; reflexivity.
+Qed.
+
+Lemma all_ns_unmark l : all_ns (map unmark_val l) = all_ns l.
+Proof. induction l as [|x l IH]; simpl; [reflexivity|]. destruct x; simpl; auto. Qed.
+
+Lemma all_ns_unmark_d (dd : list (str * val)) :
+  all_ns (map snd (map (fun kv => (fst kv, unmark_val (snd kv))) dd)) = all_ns (map snd dd).
+Proof. rewrite map_map. simpl. rewrite <- (all_ns_unmark (map snd dd)), map_map. reflexivity. Qed.
+
+Lemma all_ns_forall l : all_ns l = true -> Forall (fun x => exists d, x = VNs d) l.
+Proof.
+  induction l as [|x l IH]; simpl; intros H; constructor.
+  - destruct x; try discriminate. eauto.
+  - destruct x; try discriminate. auto.
+Qed.
+
+Definition CC (x : val) : Prop := unmark_val (conv_child x) = ns_to_dict_val (unmark_val x).
+
+Lemma map_conv_list l : Forall CC l -> all_ns l = true ->
+  map (fun x => unmark_val (match x with VNs _ => ns_as_dict_v x | z => z end)) l
+  = map (fun x => ns_to_dict_val (unmark_val x)) l.
+Proof.
+  intros H A. apply all_ns_forall in A.
+  induction l as [|y l IH]; [reflexivity|]. inversion H; subst. inversion A; subst.
+  simpl. f_equal; [|auto]. destruct H4 as [d ->]. exact H2.
+Qed.
+
+Lemma map_conv_dict (l : list (str * val)) : Forall (fun kv => CC (snd kv)) l -> all_ns (map snd l) = true ->
+  map (fun kv => (fst kv, unmark_val (match snd kv with VNs _ => ns_as_dict_v (snd kv) | z => z end))) l
+  = map (fun kv => (fst kv, ns_to_dict_val (unmark_val (snd kv)))) l.
+Proof.
+  intros H A. apply all_ns_forall in A.
+  induction l as [|[k y] l IH]; [reflexivity|]. inversion H; subst. simpl in A. inversion A; subst.
+  simpl. f_equal; [|auto]. f_equal. destruct H4 as [d ->]. exact H2.
+Qed.
+
+Lemma conv_child_commutes x : CC x.
+Proof.
+  induction x using val_ind2; try reflexivity; unfold CC.
+  - (* list *)
+    pose proof (map_conv_list l H) as M.
+    unfold conv_child. simpl unmark_val at 2. simpl ns_to_dict_val. rewrite all_ns_unmark.
+    destruct (all_ns l) eqn:A.
+    + destruct l as [|x0 l0]; [reflexivity|].
+      change (negb (is_nil (x0 :: l0))) with true. rewrite andb_true_l.
+      simpl unmark_val. f_equal. rewrite !map_map. exact (M eq_refl).
+    + rewrite andb_false_r. reflexivity.
+  - (* dict *)
+    pose proof (map_conv_dict d H) as M.
+    unfold conv_child. simpl unmark_val at 2. simpl ns_to_dict_val. rewrite all_ns_unmark_d.
+    destruct (all_ns (map snd d)) eqn:A.
+    + destruct d as [|e0 d0]; [reflexivity|].
+      change (negb (is_nil (e0 :: d0))) with true. rewrite andb_true_l.
+      simpl unmark_val. f_equal. rewrite !map_map. exact (M eq_refl).
+    + rewrite andb_false_r. reflexivity.
+  - (* namespace *)
+    change (conv_child (VNs d)) with (ns_as_dict_v (VNs d)). rewrite as_dict_v_ns.
+    simpl. f_equal. rewrite !map_map.
+    induction d as [|[k v] d IH]; [reflexivity|]. inversion H; subst.
+    simpl. f_equal; [|auto]. f_equal. exact H2.
+Qed.
+
+Lemma node_as_dict_of_val u : node_as_dict (node_of_val u) = ns_to_dict_val u.
+Proof.
+  induction u using val_ind2; try reflexivity.
+  simpl. f_equal. rewrite map_map.
+  induction d as [|[k v] d IH]; [reflexivity|]. inversion H; subst.
+  simpl. f_equal; [|auto]. f_equal. exact H2.
+Qed.
+
+Lemma as_dict_agrees_proof root : unmark_val (ns_as_dict root) = spec_as_dict (abs_d root).
+Proof.
+  unfold ns_as_dict, spec_as_dict. rewrite <- user_node_ns. unfold user_node.
+  rewrite node_as_dict_of_val.
+  exact (conv_child_commutes (VNs root)).
+Qed.
+
 (* ---- one step --------------------------------------------------------------------------- *)
 Definition rel_step (root : alist) (o : op) : Prop :=
   forall ou r, step_model clash root o = (ou, r, false) ->
@@ -673,6 +769,8 @@ Proof.
   - now apply step_updv.
   - intros ou r E. inversion E; subst. auto.
   - now apply step_items.
+  - intros ou r E. inversion E; subst. split; [|assumption].
+    unfold step_spec, unmark_out. now rewrite (as_dict_agrees_proof r).
 Qed.
 
 (* ---- histories -------------------------------------------------------------------------- *)
@@ -729,6 +827,8 @@ Proof.
   - destruct (ns_update_value clash v k only_unset root); congruence.
   - destruct d; try congruence.
     destruct (fold_left _ d _) as [[r0 failed] md0]. destruct failed; congruence.
+  - destruct (ns_get_steps clash k root); congruence.
+  - destruct (ns_from_dict clash d); congruence.
 Qed.
 
 (* one dotted string = step by step (on the model itself, no guard needed except that the first
